@@ -1,7 +1,9 @@
 #!/usr/bin/env python3
 """mk_seed_tasks.py <round> : writes /tmp/seed-r<round>-Cxx/TASK.md for the next round of seeded changes from the previous
 round's TASK.md (which lists the earlier changes for the property) plus the previous round's one-liner, and creates the
-scratch worktrees /tmp/wt-r<round>-Cxx. The agents get nothing but this file and their worktree."""
+scratch worktrees /tmp/wt-r<round>-Cxx. The agents get nothing but this file and their worktree.
+If the previous round's TASK.md files are gone, rebuild them from tools/seed_task_template.md, properties.jsonl and
+seeded/r*_changes.json."""
 import sys, os, re, json, subprocess
 rnd = int(sys.argv[1]); prev = rnd - 1
 chg = json.load(open('/verif/seeded/r%d_changes.json' % prev))
